@@ -73,6 +73,21 @@ func (c05Suite) Gen(rng *Rng, tier string, w *bufio.Writer, stats *Stats) {
 		emit("params", fmt.Sprintf("p %d", i))
 	}
 	emit("kindmapper", "kmrace")
+	nkm, npath := 24, 40
+	if tier == "thorough" {
+		nkm, npath = 200, 600
+	}
+	for i := 0; i < nkm; i++ {
+		emit("kindmapper", fmt.Sprintf("km %d", i))
+	}
+	for _, q := range c05PathShapes {
+		emit("pathshape", "q "+payload(q, nil))
+		stats.Inc("pathshapes")
+	}
+	for i := 0; i < npath; i++ {
+		emit("pathshape", "q "+payload(genPathShapeQuery(rng), nil))
+		stats.Inc("pathshapes")
+	}
 	for _, c := range LoadCypherCorpus() {
 		emit("corpus:"+c.Source, "q "+payload(c.Query, c.Params))
 		stats.Inc("corpus")
@@ -264,6 +279,15 @@ func (r *c05Runner) Step(t []string, raw string) string {
 	switch t[0] {
 	case "kmrace":
 		return c05KindMapperRace()
+	case "km":
+		var i int
+		if len(t) > 1 {
+			fmt.Sscan(t[1], &i)
+		}
+		out := c05KindMapperContract(i)
+		r.stats.Inc("class." + strings.TrimPrefix(strings.Fields(out)[0], "cls="))
+		r.stats.Inc("kind.kindmapper")
+		return out
 	case "q", "m":
 		skip := 1
 		var seed uint64
@@ -685,6 +709,150 @@ var c05ParamCases = []c05ParamCase{
 	{"create-with-map-parameter", "CREATE (n:NodeKind1 $props) RETURN n", func() map[string]any {
 		return map[string]any{"props": map[string]any{"name": "x", "tags": []string(nil)}}
 	}},
+}
+
+// ---------------------------------------------------------------- queries with several path variables
+
+// Two or three bound paths, each referenced only through nodes(p) / relationships(p) / size(nodes(p)) in RETURN and
+// in the tail WHERE: the translator stages every referenced path into its own lateral sub-select, in an order that must
+// not depend on map iteration.
+var c05PathShapes = []string{
+	"MATCH p = (a)-[:EdgeKind1]->(b), q = (b)-[:EdgeKind2]->(c) RETURN nodes(p), relationships(p), nodes(q), relationships(q)",
+	"MATCH p1 = (a)-[:EdgeKind1*1..2]->(b), p2 = (c)-[:EdgeKind2*1..2]->(d) RETURN nodes(p1), relationships(p1), nodes(p2), relationships(p2)",
+	"MATCH p = (a)-[:EdgeKind1]->(b), q = (c)-[:EdgeKind2]->(d) WHERE size(nodes(p)) = size(nodes(q)) RETURN a, c",
+	"MATCH p = (a)-[:EdgeKind1]->(b), q = (c)-[:EdgeKind2]->(d) WHERE size(nodes(p)) > 1 AND size(relationships(q)) > 0 RETURN a",
+	"MATCH p = (a)-[r1:EdgeKind1]->(b) MATCH q = (c)-[r2:EdgeKind2]->(d) RETURN nodes(p), relationships(p), nodes(q), relationships(q)",
+	"MATCH p = (a)-[:EdgeKind1]->(b), q = (b)-[:EdgeKind2]->(c), t = (c)-[:EdgeKind1]->(d) WHERE size(nodes(t)) > 0 RETURN size(nodes(p)) + size(relationships(p)), relationships(q), nodes(q), nodes(t)",
+	"MATCH p = (a)-[:EdgeKind1*1..]->(b) MATCH q = (b)-[:EdgeKind2*1..]->(c) WITH p, q WHERE size(relationships(p)) > 1 AND size(nodes(q)) > 1 RETURN nodes(q), nodes(p)",
+	"MATCH p = (a:NodeKind1)-[:EdgeKind1]->(b) MATCH q = (b)-[:EdgeKind2]->(c:NodeKind2) RETURN size(relationships(p)) + size(relationships(q)) AS hops, nodes(p), nodes(q)",
+	"MATCH p = (a)-[:EdgeKind1]->(b), q = (b)-[:EdgeKind2]->(c) WHERE size(nodes(q)) = 2 RETURN relationships(p), nodes(p) ORDER BY size(nodes(p))",
+	"MATCH p = (a)-[:EdgeKind1]->(b), q = (b)-[:EdgeKind2]->(c) RETURN nodes(p), relationships(q)",
+}
+
+func genPathShapeQuery(rng *Rng) string {
+	n := 2 + rng.Intn(2)
+	names := []string{"p", "q", "t"}
+	var pats []string
+	node := 0
+	nv := func() string { node++; return fmt.Sprintf("v%d", node) }
+	for i := 0; i < n; i++ {
+		a := nv()
+		if i > 0 && rng.Chance(1, 2) {
+			a = fmt.Sprintf("v%d", node-1) // chain onto the previous path's end node
+		}
+		rel := "[:" + Pick(rng, genEdgeKinds) + Pick(rng, []string{"", "", "*1..2", "*1.."}) + "]"
+		pats = append(pats, fmt.Sprintf("%s = (%s%s)-%s->(%s)", names[i], a, Pick(rng, []string{"", ":NodeKind1", ":User"}), rel, nv()))
+	}
+	ref := func(p string) string {
+		return Pick(rng, []string{"nodes(" + p + ")", "relationships(" + p + ")", "size(nodes(" + p + "))", "size(relationships(" + p + "))"})
+	}
+	var b strings.Builder
+	if rng.Chance(1, 2) {
+		b.WriteString("MATCH " + strings.Join(pats, ", "))
+	} else {
+		for _, p := range pats {
+			b.WriteString("MATCH " + p + " ")
+		}
+	}
+	order := rng.Intn(n)
+	if rng.Chance(1, 2) {
+		p := names[(order+1)%n]
+		b.WriteString(" WHERE size(" + Pick(rng, []string{"nodes", "relationships"}) + "(" + p + ")) > " + fmt.Sprint(rng.Intn(3)))
+	}
+	if rng.Chance(1, 3) {
+		b.WriteString(" WITH " + strings.Join(names[:n], ", ") + " WHERE size(nodes(" + names[order] + ")) > 0")
+	}
+	// every path is referenced at least twice through its components (once is translated inline, not staged)
+	var items []string
+	for i := 0; i < n; i++ {
+		p := names[(order+i)%n]
+		items = append(items, ref(p), ref(p))
+		if rng.Chance(1, 4) {
+			items = append(items, ref(p))
+		}
+	}
+	if rng.Chance(1, 4) {
+		// references only in the tail WHERE
+		var conds []string
+		for i := 0; i < n; i++ {
+			conds = append(conds, "size("+Pick(rng, []string{"nodes", "relationships"})+"("+names[(order+i)%n]+")) > "+fmt.Sprint(rng.Intn(2)))
+		}
+		return strings.Join(strings.Fields(b.String()+" WITH "+strings.Join(names[:n], ", ")+" WHERE "+strings.Join(conds, " AND ")+" RETURN 1 AS one"), " ")
+	}
+	b.WriteString(" RETURN " + strings.Join(items, ", "))
+	return strings.Join(strings.Fields(b.String()), " ")
+}
+
+// ---------------------------------------------------------------- kind mapper contract: every kind exactly one id
+
+// c05KindMapperContract: 16 goroutines translate the SAME CREATE naming kinds nobody has registered yet against ONE
+// mapper. All translations must agree byte for byte; afterwards the mapper's table must map every kind to exactly one
+// id and every id to one kind, ids dense. Every third case is the single-threaded repeated label `(n:New:New)`.
+func c05KindMapperContract(i int) string {
+	mapper := newHarnessKindMapper()
+	base := len(mapper.KindToID)
+	a, b := fmt.Sprintf("FreshKind%dA", i), fmt.Sprintf("FreshKind%dB", i)
+	var text string
+	goroutines := c05Concurrent
+	switch i % 3 {
+	case 0:
+		text = fmt.Sprintf("CREATE (n:%s) RETURN n", a)
+	case 1:
+		text = fmt.Sprintf("CREATE (n:%s:%s)-[:%sE]->(m:%s) RETURN n", a, b, a, a)
+	default:
+		text = fmt.Sprintf("CREATE (n:%s:%s) RETURN n", a, a)
+		goroutines = 1
+	}
+	outs := make([]c05Outcome, goroutines)
+	var wg sync.WaitGroup
+	start := make(chan struct{})
+	for g := 0; g < goroutines; g++ {
+		wg.Add(1)
+		go func(g int) {
+			defer wg.Done()
+			m, err, pp := parseQuery(text)
+			<-start
+			if err != nil || pp != "" {
+				outs[g] = c05Outcome{xlOutcome: xlOutcome{Status: "err", Msg: "parse"}}
+				return
+			}
+			outs[g] = c05Translate(m, mapper, nil)
+		}(g)
+	}
+	close(start)
+	wg.Wait()
+	cls, detail := "ok", ""
+	for g := 1; g < goroutines; g++ {
+		if outs[g].key() != outs[0].key() {
+			cls, detail = "kindmapper-contract", fmt.Sprintf("goroutine %d disagrees with goroutine 0: %s", g, firstTextDiff(outs[0].key(), outs[g].key()))
+			break
+		}
+	}
+	// the table: one id per kind, one kind per id, ids dense 1..n
+	if cls == "ok" {
+		n := len(mapper.KindToID)
+		maxID := int16(0)
+		for id := range mapper.IDToKind {
+			if id > maxID {
+				maxID = id
+			}
+		}
+		switch {
+		case len(mapper.IDToKind) != n:
+			cls, detail = "kindmapper-contract", fmt.Sprintf("%d kinds but %d ids: a kind was registered more than once", n, len(mapper.IDToKind))
+		case int(maxID) != n:
+			cls, detail = "kindmapper-contract", fmt.Sprintf("ids are not dense: %d kinds, highest id %d", n, maxID)
+		case outs[0].Status == "ok" && n == base:
+			cls, detail = "kindmapper-contract", "CREATE with fresh kinds registered nothing"
+		}
+		for kind, id := range mapper.KindToID {
+			if back, ok := mapper.IDToKind[id]; !ok || !back.Is(kind) {
+				cls, detail = "kindmapper-contract", fmt.Sprintf("kind %s has id %d but that id belongs to %v", kind, id, back)
+			}
+		}
+	}
+	return fmt.Sprintf("cls=%s st=%s site=InMemoryKindMapper.AssertKinds runs=%d ms=0 label=kindmapper:%s min=%s detail=%s",
+		cls, outs[0].Status, goroutines, strings.ReplaceAll(text, " ", "_"), jsonQuote(text), jsonQuote(detail))
 }
 
 // ---------------------------------------------------------------- kind mapper race probe (child process)
